@@ -83,6 +83,10 @@ func (m *monC17) checkBindings(height int64) {
 		if c, ok := w.P.PApp.IBCKeeper.ConnectionKeeper.GetConnection(ctx, ic.ConnectionHops[0]); ok {
 			if cid, ok := revClient[c.ClientId]; ok {
 				openBy[cid] = append(openBy[cid], ic.ChannelId)
+			} else if st := clientStatus(w.P, c.ClientId); st != "Active" {
+				// left over from a removed consumer whose client had expired: IBC core refuses to close such a channel, and
+				// nothing can be received or sent on it any more
+				w.Event("C17", "dead-open-channel-of-removed-consumer-on-"+st+"-client")
 			} else {
 				w.Violation("C17", "open-ccv-channel-on-unbound-client", map[string]any{"channel": ic.ChannelId, "client": c.ClientId, "height": height})
 			}
